@@ -464,7 +464,7 @@ where
     }
 
     async fn finish(&mut self, stream: &mut SearchStream<'a, S, A>) -> LdapResult {
-        let res = stream.finish().await;
+        let mut res = stream.finish().await;
         // The result of a page with more to follow is not the result of the search, whatever
         // kept next() from asking for the following page (e.g., an adapter further up the
         // chain failing at the end of the page).
@@ -484,6 +484,10 @@ where
                 ctrls: vec![],
             };
         }
+        // The last page's result is the result of the search; its paging control, if next()
+        // didn't get to remove it, is none of the caller's business.
+        res.ctrls
+            .retain(|ctrl| !matches!(*ctrl, Control(Some(ControlType::PagedResults), _)));
         res
     }
 }
